@@ -1,10 +1,11 @@
 """C11 - sam variants agrees with variants on the toPairAlign / MSA form and whatever the reference source."""
-from .. import varcommon
+from .. import samcommon, varcommon
 
 
 def run(ctx):
     ctx.rule = varcommon.RULE
     varcommon.run(ctx, ["C11-"])
+    samcommon.run_blocks(ctx, "C11-", 100 if ctx.quick else 1500)      # multi-record SAM blocks through sam variants
     ctx.assumptions = ["annotation consistent with the genome: every CDS ends in a stop codon of the reference, GenBank /translation and GFF phases are "
                        "computed from the same layout (GFF3 phase semantics)",
                        "reference rows use A/C/G/T; query symbols are upper-case IUPAC or '-'",
